@@ -39,7 +39,7 @@ ASSUMPTIONS = [
 SHARDS = {"quick": 16, "thorough": 16}
 TIMEOUT = {"quick": 900, "thorough": 7200}
 MIN_CASES = {"quick": 60000, "thorough": 120000}
-REQUIRED_COUNTERS = ["struct_roundtrips", "struct_classes_covered", "linked_id_lists_decoded", "coap_databases_decoded", "ble_signatures_decoded", "characteristic_accessor_checked", "boundary_crossing_values"]
+REQUIRED_COUNTERS = ["struct_roundtrips", "struct_classes_covered", "linked_id_lists_decoded", "coap_databases_decoded", "ble_signatures_decoded", "characteristic_accessor_checked", "characteristic_accessor_empty_message", "boundary_crossing_values"]
 
 SIZES = [1, 254, 255, 256, 510, 511]
 
@@ -148,7 +148,16 @@ def gen_value(rng, kind, depth, big: bool):
         s = (base * (n // len(base.encode()) + 1))
         while len(s.encode()) > n:
             s = s[:-1]
-        return s or "a"
+        s = s or "a"
+        r = rng.random()
+        if r < 0.25 and len(s) >= 1:
+            # NUL / blank / control characters are ordinary characters of a UTF-8 string field, wherever they stand
+            pad = rng.choice(["\x00", "\x00\x00", " ", "\n", "\t", "\x7f"])
+            s = rng.choice([s[:-1] + pad[:1], pad[:1] + s[1:], s[: len(s) // 2] + pad[:1] + s[len(s) // 2 + 1 :], pad if n <= 2 else s[:-2] + pad])
+            while len(s.encode()) > max(n, 1):
+                s = s[1:]
+            s = s or "\x00"
+        return s
     if k == "bytes":
         n = rng.choice(SIZES) if big else rng.choice([1, 2, 7, 16, 32])
         return rng.randbytes(n)
@@ -572,6 +581,10 @@ def accessor_part(ctx, sch) -> None:
             is_array = bool(meta.get("array"))
             items = [gen_struct(rng, schema, 0, big=False, at_least_one=True) for _ in range(rng.randint(1, 3) if is_array else 1)]
             items = [v for v in items if not encodes_empty(v, schema)] or [gen_struct(rng, schema, 0, False, at_least_one=True)]
+            if rep == 0:
+                # the message with EVERY field unset / the list without items: zero bytes on the wire, "" in the database
+                items = [] if is_array else [{}]
+                ctx.count("characteristic_accessor_empty_message")
             raw = b"\x00\x00".join(ref.encode_struct(ref_schema(schema), plain(v, schema)) for v in items)
             acc = Accessory(1)
             svc = acc.add_service("0000FF00-0000-1000-8000-0026BB765291")
